@@ -6,6 +6,7 @@
 //!   (script SHELL (cmd NAME item*))  -> `(adv xSCRIPT) (inn xSCRIPT)`: the generated script with the
 //!                                       texts of the spec, and with every text replaced by innocuous
 //!                                       text of the same emptiness ("xx" / "")
+//!   (strreplace xPAT xREP xS)       -> `str::replace` of Rust std: `xHEX`
 //!   (lexport MACHINE STATE xINPUT xEXPECTED) -> EXPECTED as text (the python port's answer, compared
 //!                                       by the runner with the extracted Coq lexer's answer)
 use crate::sexp::Sx;
@@ -17,6 +18,7 @@ pub fn dispatch(head: &str, args: &[Sx]) -> Option<String> {
     match head {
         "esc" => Some(esc(args)),
         "script" => Some(script(args)),
+        "strreplace" => Some(strreplace(args)),
         "lexport" => Some(match args.get(3) {
             Some(e) => String::from_utf8_lossy(&e.bytes()).into_owned(),
             None => "badcase".into(),
@@ -42,6 +44,17 @@ fn esc(args: &[Sx]) -> String {
     match out {
         Some(o) => crate::hex(o.as_bytes()),
         None => "no-such-kind".into(),
+    }
+}
+
+/// (strreplace xPAT xREP xS) -> Rust's `str::replace` itself (the model's `replace` is compared with it)
+fn strreplace(args: &[Sx]) -> String {
+    if args.len() != 3 {
+        return "badcase".into();
+    }
+    match (String::from_utf8(args[0].bytes()), String::from_utf8(args[1].bytes()), String::from_utf8(args[2].bytes())) {
+        (Ok(p), Ok(r), Ok(s)) => crate::hex(s.replace(p.as_str(), &r).as_bytes()),
+        _ => "not-utf8".into(),
     }
 }
 
